@@ -113,6 +113,10 @@ pub fn concretize(h: &History) -> (u64, Vec<u64>) {
     (limit, ids)
 }
 
+pub fn op_strategy_pub() -> BoxedStrategy<Op> {
+    op_strategy()
+}
+
 fn op_strategy() -> BoxedStrategy<Op> {
     prop_oneof![
         3 => (0u16..200).prop_map(Op::Small),
